@@ -17,8 +17,12 @@ def main(prop, path):
     if isinstance(q, dict) and "case" in q:          # a q_check failure / disagreement that carries its case
         cases.append((q.get("flavor", r.get("flavor", "sync")), q["case"]))
     for b in r.get("broken", []):
+        fd = b.get("first_difference")
         if "case" in b:
             cases.append((b.get("flavor", "sync"), b["case"]))
+        elif isinstance(fd, dict) and isinstance(fd.get("case"), dict) and "agenda" in fd["case"]:
+            # a model/code disagreement found by a q_check of C08 / C09: the case travels inside `first_difference`
+            cases.append((fd.get("flavor", "async"), fd["case"]))
         else:
             print(json.dumps(b, indent=1)[:3000])
     rc = 0
